@@ -12,6 +12,7 @@ def state_collection(ctx):
     dispatch (scan arm selected by the primitive alone, values saved in the body stacked along the iteration axis, transparent results) is
     part of the mechanism the property is anchored in (state.py:280-320), so its rules are run for C18 as well."""
     c19.interpreter_rules(ctx)
+    c19.state_fallthrough(ctx)
 
 
 RULES = [infer.chain_rule, state_collection]
